@@ -15,6 +15,8 @@ func genMore() {
 	genNilGuards()
 	genLoops()
 	genConfig()
+	genSig()
+	genMapRanges()
 }
 
 type methInfo struct {
